@@ -27,7 +27,10 @@ pub fn basic(
             let caret_datum = datum_definitions
                 .get(caret_datum_id)
                 .unwrap_or_else(|| panic!("datum #{}", caret_datum_id));
-            if caret_datum.details().offset() == byte_caret {
+            if caret_datum.details().size() == 0 {
+                // Empty data occupy no byte, they are not necessarily listed in address order
+                data_caret += 1;
+            } else if caret_datum.details().offset() == byte_caret {
                 data_caret += 1;
                 byte_caret += caret_datum.details().size();
             } else {
